@@ -88,6 +88,19 @@ public:
    /// @since  1.15.0, 16.03.2018
    std::string getAttribute( const std::string& attr_name) const;
 
+   /// Searches for the given attribute and returns its value.<br>
+   /// Unlike getAttribute(), this allows to distinguish between an attribute
+   /// with an empty value and an attribute that does not exist.<br>
+   /// If multiple atributes with the same name exist, the value of the last
+   /// attribute is returned.
+   ///
+   /// @param[in]   attr_name   The name of the attribute to return the value of.
+   /// @param[out]  attr_value  Returns the value of the attribute, if found.
+   /// @return  \c true if an attribute with the given name was found.
+   /// @since  1.47.0, 29.09.2026
+   bool findAttribute( const std::string& attr_name,
+      std::string& attr_value) const;
+
    /// Removes the atribute that was added last.
    ///
    /// @since  1.15.0, 16.03.2018
